@@ -4,7 +4,7 @@ into seeded/<Cnn-mK>/ (patch.diff, demo.py, meta.json)."""
 import glob, json, os, shutil
 V = os.path.dirname(os.path.dirname(os.path.abspath(__file__)))
 n = 0
-for vf in sorted(glob.glob("/var/tmp/seedlogs/C*-m*.json")):
+for vf in sorted(glob.glob(os.path.join(os.environ.get("SEED_LOGS", "/var/tmp/seedlogs"), "C*-m*.json"))):
     sid = os.path.basename(vf)[:-5]
     try:
         verdict = json.load(open(vf))
@@ -12,7 +12,7 @@ for vf in sorted(glob.glob("/var/tmp/seedlogs/C*-m*.json")):
         continue
     if not verdict.get("confirmed"):
         continue
-    src = "/tmp/seed/%s-out/%s" % tuple(sid.split("-"))
+    src = os.path.join(os.environ.get("SEED_BASE", "/tmp/seed"), "%s-out/%s" % tuple(sid.split("-")))
     dst = os.path.join(V, "seeded", sid)
     os.makedirs(dst, exist_ok=True)
     for f in ("patch.diff", "demo.py"):
